@@ -1967,6 +1967,8 @@ func (t *tScreen) UnregisterRuneFallback(orig rune) {
 }
 
 func (t *tScreen) CanDisplay(r rune, checkFallbacks bool) bool {
+	t.Lock()
+	defer t.Unlock()
 
 	if enc := t.encoder; enc != nil {
 		nb := make([]byte, 6)
@@ -2005,6 +2007,8 @@ func (t *tScreen) HasKey(k Key) bool {
 }
 
 func (t *tScreen) SetSize(w, h int) {
+	t.Lock()
+	defer t.Unlock()
 	if t.setWinSize != "" {
 		t.TPuts(t.ti.TParm(t.setWinSize, w, h))
 	}
@@ -2108,6 +2112,10 @@ func (t *tScreen) disengage() {
 	// wait for everything to shut down
 	t.wg.Wait()
 
+	// the application may still be calling other Screen methods
+	t.Lock()
+	defer t.Unlock()
+
 	// shutdown the screen and disable special modes (e.g. mouse and bracketed paste)
 	ti := t.ti
 	t.cells.Resize(0, 0)
@@ -2142,7 +2150,9 @@ func (t *tScreen) disengage() {
 
 // Beep emits a beep to the terminal.
 func (t *tScreen) Beep() error {
+	t.Lock()
 	t.writeString(string(byte(7)))
+	t.Unlock()
 	return nil
 }
 
